@@ -495,3 +495,101 @@ def cases(expr: ast.AST, limit: int = 16) -> List[Tuple[Dict[str, bool], ast.AST
 def same_product(e: ast.AST, a: str, b: str) -> bool:
     """Is `e` the product a*b in either order (normalised operand text)?"""
     return isinstance(e, ast.BinOp) and isinstance(e.op, ast.Mult) and {norm(e.left), norm(e.right)} == {a, b} and (a != b or norm(e.left) == norm(e.right))
+
+
+# ------------------------------------------------------------------ flow-sensitive expansion (re-bound names)
+def _block_chain(node: ast.AST) -> List[Tuple[ast.AST, str]]:
+    """(compound statement, field) pairs enclosing `node`, innermost first, up to the function."""
+    out = []
+    child = node
+    for a in ancestors(node):
+        if isinstance(a, (ast.FunctionDef, ast.AsyncFunctionDef, ast.Lambda)):
+            out.append((a, "body"))
+            break
+        for fld in ("body", "orelse", "finalbody", "handlers"):
+            blk = getattr(a, fld, None)
+            if isinstance(blk, list) and any(child is x for x in blk):
+                out.append((a, fld))
+        child = a
+    return out
+
+
+def reaching_def(fn: ast.AST, name: str, at: ast.AST) -> Optional[ast.Assign]:
+    """The assignment `name = value` that certainly reaches statement `at`: the last binding of `name` before `at`,
+    provided it lies in a block enclosing `at` (so it dominates it) and is a plain single-target assignment.  Loops
+    enclosing `at` must not re-bind the name after `at` (the value of a later iteration would reach it too)."""
+    at_stmt = at
+    while at_stmt is not None and not isinstance(at_stmt, ast.stmt):
+        at_stmt = getattr(at_stmt, "_parent", None)
+    if at_stmt is None:
+        return None
+    binds = []
+    for st in walk_function(fn):
+        if isinstance(st, (ast.Assign, ast.AugAssign, ast.AnnAssign, ast.For, ast.AsyncFor, ast.With, ast.AsyncWith, ast.NamedExpr, ast.comprehension)):
+            if isinstance(st, ast.Assign):
+                tg = st.targets
+            elif isinstance(st, (ast.With, ast.AsyncWith)):
+                tg = [i.optional_vars for i in st.items if i.optional_vars is not None]
+            else:
+                tg = [st.target]
+            if any(name in target_names(t) for t in tg):
+                binds.append(st)
+    if not binds:
+        return None
+    chain = _block_chain(at_stmt)
+    enclosing = {id(a) for a, _ in chain}
+    loops = [a for a, _ in chain if isinstance(a, (ast.For, ast.AsyncFor, ast.While))]
+    before = [b for b in binds if getattr(b, "lineno", 0) < at_stmt.lineno or (b is at_stmt and False)]
+    after_in_loop = [b for b in binds if getattr(b, "lineno", 0) >= at_stmt.lineno and b is not at_stmt and any(in_body_of(b, lp) for lp in loops)]
+    # the statement itself may re-bind the name (x = f(x)): its own right-hand side sees the earlier binding
+    if not before:
+        return None
+    last = max(before, key=lambda b: (b.lineno, getattr(b, "col_offset", 0)))
+    if not (isinstance(last, ast.Assign) and len(last.targets) == 1 and isinstance(last.targets[0], ast.Name)):
+        return None
+    par = getattr(last, "_parent", None)
+    if id(par) not in enclosing:
+        return None
+    # same block or an enclosing one; and when `at` sits in a loop that re-binds the name later, the back edge brings
+    # that later value too - unless `last` itself is inside the same loop body (then it is re-established each round)
+    for lp in loops:
+        if any(in_body_of(b, lp) for b in after_in_loop) and not in_body_of(last, lp):
+            return None
+        if at_stmt in binds and in_body_of(at_stmt, lp) and not in_body_of(last, lp):
+            return None
+    # the block relation must be "same statement list" or ancestor: check that `last` precedes on the chain
+    for a, fld in chain:
+        blk = getattr(a, fld, [])
+        if isinstance(blk, list) and any(last is x for x in blk):
+            return last
+    return None
+
+
+def expand_at(fn: ast.AST, expr: Optional[ast.AST], at: ast.AST, depth: int = 10, keep: Iterable[str] = ()) -> Optional[ast.AST]:
+    """`expr` as evaluated at statement `at`, with local names replaced by the expressions that reach them
+    (follows re-binding chains such as `m = a & b; m = m.all(-1)`).  Parameters and unresolvable names stay."""
+    if expr is None:
+        return None
+    from .inline import clone
+
+    keep = set(keep)
+
+    def go(e: ast.AST, at_: ast.AST, d: int) -> ast.AST:
+        if d <= 0:
+            return clone(e)
+
+        class T(ast.NodeTransformer):
+            def visit_Name(self, node: ast.Name):
+                if not isinstance(node.ctx, ast.Load) or node.id in keep:
+                    return node
+                rd = reaching_def(fn, node.id, at_)
+                if rd is None:
+                    return node
+                return go(rd.value, rd, d - 1)
+
+            def visit_Lambda(self, node):
+                return node
+
+        return T().visit(clone(e))
+
+    return go(expr, at, depth)
